@@ -123,8 +123,12 @@ def run_case(case, rec):
     opt = make_chain(base, faults)
     tracked = Params(nn_params=None, eq_params={"theta": True, "phi": None, "kappa": None, "tick": True})
     n = N_ITER
+    # solve's default verbosity (prints from inside the loop and when it stops) for every other fault position
+    verb = dict(print_loss_every=2) if case["k"] % 2 == 1 else dict(verbose=False)
+    if "verbose" not in verb:
+        rec.count("runs_with_default_verbosity")
     out = guard.call(jinns.solve, n_iter=n, init_params=params, data=data, loss=loss, optimizer=opt,
-                     tracked_params=tracked, verbose=False)
+                     tracked_params=tracked, **verb)
     ref = refloop.ref_loop(n, params, data, loss, opt, tracked=tracked, prime=1)
     first = min([k for _, k in faults]) if faults else None
     sig = "nan-stop/%s" % (case["origin"] if not case.get("k2") else "two-faults")
